@@ -821,6 +821,8 @@ def simplify(e):
             return x
         if isinstance(x, ast.BinOp):
             x.left, x.right = fold(x.left), fold(x.right)
+            if isinstance(x.op, ast.Add) and isinstance(x.left, (ast.Tuple, ast.List)) and type(x.left) is type(x.right):
+                return fold(type(x.left)(elts=list(x.left.elts) + list(x.right.elts), ctx=ast.Load()))   # (a, b) + (c,)
             return x
         if isinstance(x, ast.Call):
             x.args = [fold(a) for a in x.args]
@@ -847,6 +849,13 @@ def peval(view, env, max_paths=400, effects=False):
     try:
         mtree = view.fn._module.tree
         owner = None
+        fn_locals = {x.id for x in ast.walk(view.fn) if isinstance(x, ast.Name) and isinstance(x.ctx, (ast.Store, ast.Del))} | \
+            {a.arg for a in view.fn.args.args + view.fn.args.kwonlyargs}
+        for st in mtree.body:       # module-level literal tables bound exactly once (`CUTOFF_ERRNOS = (errno.X, ..)`)
+            if isinstance(st, ast.Assign) and len(st.targets) == 1 and isinstance(st.targets[0], ast.Name) and \
+                    isinstance(st.value, (ast.Dict, ast.Tuple, ast.List)) and st.targets[0].id not in fn_locals and \
+                    sum(1 for z in ast.walk(mtree) if isinstance(z, ast.Name) and z.id == st.targets[0].id and isinstance(z.ctx, (ast.Store, ast.Del))) == 1:
+                cenv.setdefault(st.targets[0].id, st.value)
         for c in mtree.body:
             if isinstance(c, ast.ClassDef):
                 if any(f is view.fn for f in c.body):
@@ -1437,3 +1446,98 @@ def group_condition(view, nodes, by_value=True):
             best = d
     start = [best.id] if best is not None else [cfg.entry.id]
     return ("or", [path_condition(view, n, start=start, by_value=by_value) for n in nodes])
+
+
+# ------------------------------------------------------------------ transparent wrappers
+def _only_console(st):
+    """an expression statement that only talks to the console (tracing)"""
+    return isinstance(st, ast.Expr) and (
+        (isinstance(st.value, ast.Constant) and isinstance(st.value.value, str)) or
+        (isinstance(st.value, ast.Call) and (dotted(st.value.func) or "").startswith("console.")))
+
+
+def _passes_through(call, fn, skip_first):
+    """call hands on exactly fn's parameters, in order (positional or by their own names), *pa/**kwa included"""
+    a = fn.args
+    pos = [x.arg for x in a.posonlyargs + a.args][1 if skip_first else 0:]
+    got = []
+    for x in call.args:
+        if isinstance(x, ast.Starred):
+            got.append("*" + (dotted(x.value) or "?"))
+        else:
+            got.append(dotted(x) or "?")
+    kws = {}
+    for k in call.keywords:
+        if k.arg is None:
+            got.append("**" + (dotted(k.value) or "?"))
+        else:
+            kws[k.arg] = dotted(k.value) or "?"
+    want = list(pos) + (["*" + a.vararg.arg] if a.vararg else []) + [x.arg for x in a.kwonlyargs] + (["**" + a.kwarg.arg] if a.kwarg else [])
+    given = got[:]
+    for n in pos + [x.arg for x in a.kwonlyargs]:
+        if n in kws:
+            if kws[n] != n:
+                return False
+            given.append(n)
+    return sorted(given) == sorted(want) and all(k in pos + [x.arg for x in a.kwonlyargs] for k in kws) and \
+        [g for g in got if not g.startswith("*")] == pos[:len([g for g in got if not g.startswith("*")])]
+
+
+def transparent_override(fn):
+    """a method that only delegates to super() with its own arguments and returns the result (tracing to the console aside):
+    it changes nothing about what the inherited method does"""
+    body = [st for st in fn.body if not _only_console(st)]
+    if len(body) != 1:
+        return False
+    st = body[0]
+    v = st.value if isinstance(st, (ast.Return, ast.Expr)) else None
+    if not isinstance(v, ast.Call) or not isinstance(v.func, ast.Attribute) or v.func.attr != fn.name:
+        return False
+    r = v.func.value
+    if not (isinstance(r, ast.Call) and isinstance(r.func, ast.Name) and r.func.id == "super"):
+        return False
+    if isinstance(st, ast.Expr) and any(isinstance(x, ast.Return) and x.value is not None for x in ast.walk(fn)):
+        return False
+    return _passes_through(v, fn, skip_first=True)
+
+
+def transparent_decorator(repo, module, deco):
+    """@deco where deco(func) returns func itself, or a wrapper `def w(*pa, **kwa): <console tracing>; return func(*pa, **kwa)`"""
+    name = deco.func if isinstance(deco, ast.Call) else deco
+    b = repo.resolve_expr(module, name) if dotted(name) else None
+    if b is None or b.kind != "func" or isinstance(deco, ast.Call):
+        return False
+    d = b.target
+    params = [x.arg for x in d.args.args]
+    if len(params) != 1:
+        return False
+    f = params[0]
+    inner = [st for st in d.body if isinstance(st, ast.FunctionDef)]
+    rest = [st for st in d.body if not isinstance(st, ast.FunctionDef) and not _only_console(st)]
+    if len(rest) != 1 or not isinstance(rest[0], ast.Return):
+        return False
+    rv = dotted(rest[0].value)
+    if rv == f and not inner:
+        return True
+    if len(inner) != 1 or rv != inner[0].name:
+        return False
+    w = inner[0]
+    for dd in w.decorator_list:
+        n = dotted(dd.func if isinstance(dd, ast.Call) else dd) or ""
+        if n.split(".")[-1] != "wraps":
+            return False
+    body = [st for st in w.body if not _only_console(st)]
+    if len(body) == 2 and isinstance(body[0], ast.Assign) and len(body[0].targets) == 1 and isinstance(body[0].targets[0], ast.Name) and \
+            isinstance(body[1], ast.Return) and dotted(body[1].value) == body[0].targets[0].id and isinstance(body[0].value, ast.Call):
+        # result = func(*pa, **kwa); <tracing>; return result
+        if any(isinstance(x, ast.Name) and x.id == body[0].targets[0].id and isinstance(x.ctx, ast.Store) for st in w.body[w.body.index(body[0]) + 1:]
+               for x in ast.walk(st)):
+            return False
+        call = body[0].value
+    elif len(body) == 1 and isinstance(body[0], ast.Return) and isinstance(body[0].value, ast.Call):
+        call = body[0].value
+    else:
+        return False
+    if dotted(call.func) != f:
+        return False
+    return _passes_through(call, w, skip_first=False)
